@@ -15,8 +15,20 @@ const (
 )
 
 // CrossProduct for three Point64 (pt1->pt2 x pt2->pt3)
+// fitsProduct reports whether the products of the four values (and their sum or difference) fit
+// into an int64, so that integer arithmetic on them is exact.
+func fitsProduct(a, b, c, d int64) bool {
+	const lim = 1 << 31
+	return a > -lim && a < lim && b > -lim && b < lim && c > -lim && c < lim && d > -lim && d < lim
+}
+
 func CrossProduct(pt1, pt2, pt3 Point64) float64 {
-	return float64((pt2.X-pt1.X)*(pt3.Y-pt2.Y) - (pt2.Y-pt1.Y)*(pt3.X-pt2.X))
+	a, b, c, d := pt2.X-pt1.X, pt3.Y-pt2.Y, pt2.Y-pt1.Y, pt3.X-pt2.X
+	if fitsProduct(a, b, c, d) {
+		return float64(a*b - c*d)
+	}
+	// larger differences would wrap in int64: multiply in floating point, as upstream does
+	return float64(a)*float64(b) - float64(c)*float64(d)
 }
 
 func checkPrecision(precision int) {
@@ -84,7 +96,11 @@ func isCollinear(pt1, sharedPt, pt2 Point64) bool {
 }
 
 func dotProduct64(pt1, pt2, pt3 Point64) float64 {
-	return float64((pt2.X-pt1.X)*(pt3.X-pt2.X) + (pt2.Y-pt1.Y)*(pt3.Y-pt2.Y))
+	a, b, c, d := pt2.X-pt1.X, pt3.X-pt2.X, pt2.Y-pt1.Y, pt3.Y-pt2.Y
+	if fitsProduct(a, b, c, d) {
+		return float64(a*b + c*d)
+	}
+	return float64(a)*float64(b) + float64(c)*float64(d)
 }
 
 func crossProductD(vec1, vec2 PointD) float64 {
@@ -113,13 +129,22 @@ func getSegmentIntersectPt(ln1a, ln1b, ln2a, ln2b Point64) (Point64, bool) {
 	dx1 := ln1b.X - ln1a.X
 	dy2 := ln2b.Y - ln2a.Y
 	dx2 := ln2b.X - ln2a.X
-	det := dy1*dx2 - dy2*dx1
 	var ip Point64
-	if det == 0 {
-		return ip, false
+	var t float64
+	if ex, ey := ln1a.X-ln2a.X, ln1a.Y-ln2a.Y; fitsProduct(dy1, dx2, dy2, dx1) && fitsProduct(ex, dy2, ey, dx2) {
+		det := dy1*dx2 - dy2*dx1
+		if det == 0 {
+			return ip, false
+		}
+		t = float64(ex*dy2-ey*dx2) / float64(det)
+	} else {
+		// larger differences would wrap in int64: multiply in floating point, as upstream does
+		det := float64(dy1)*float64(dx2) - float64(dy2)*float64(dx1)
+		if det == 0 {
+			return ip, false
+		}
+		t = (float64(ex)*float64(dy2) - float64(ey)*float64(dx2)) / det
 	}
-
-	t := float64(((ln1a.X-ln2a.X)*dy2)-((ln1a.Y-ln2a.Y)*dx2)) / float64(det)
 	if t <= 0 {
 		ip = ln1a
 	} else if t >= 1 {
